@@ -425,7 +425,7 @@ def run(tier):
     else:
         mcs = [("mc-7x4", W4, 7), ("mc-10x3", W3, 10), ("mc-13x2", W2, 13)]
         dumps = [("dump-6x4", W4, 6, "pairs", 20000, 12), ("dump-7x3", W3, 7, "pairs", 10000, 8),
-                 ("dump-9x2", W2, 9, "pairs", 10000, 4), ("dump-12x2", W2, 12, "edges", 10000, 1)]
+                 ("dump-9x2", W2, 9, "pairs", 10000, 4), ("dump-11x2", W2, 11, "edges", 10000, 1)]
         rec = [("small", 40000), ("mixed", 40000), ("ctor", 40000)] * 3
         nonrep = [20000] * 3
         drifts = [("drift-new-5x2", (0, 4), 5), ("drift-new-4x3", (0, 4, 8), 4), ("drift-new-6x2", (0, 4), 6)]
